@@ -273,17 +273,64 @@ def run_shard(mode, seed, count, maxops, first, outdir, tag):
             "seed": seed, "first": first, "count": count, "maxops": maxops}
 
 
+VEC_TIERS = {
+    "quick": (8, 400, 40),
+    "thorough": (16, 6000, 60),
+}
+VEC_MISMATCH_PROPS = {
+    ("vecmodel", "res"): ["C13", "C15", "C16", "C19"],
+    ("vecmodel", "contents"): ["C13", "C15", "C16"],
+    ("vecmodel", "cap"): ["C13", "C18", "C19"],
+    ("vecmodel", "drops"): ["C15", "C16"],
+    ("vecmodel", "final_drops"): ["C15", "C16"],
+    ("vecmodel", "grid_with_capacity"): ["C19"],
+    ("vecmodel", "grid_reserve"): ["C19"],
+    ("vecmodel", "grid_reserve_exact"): ["C19"],
+    ("vecmodel", "grid_try_reserve"): ["C19"],
+    ("vecmodel", "grid_try_reserve_exact"): ["C19"],
+}
+VEC_PROPS = ["C13", "C15", "C16", "C19"]
+
+
+def run_vec_shard(mode, seed, count, maxops, first, outdir, tag):
+    trace = os.path.join(outdir, "vec_%s_%s.trace" % (mode, tag))
+    rep = os.path.join(outdir, "vec_%s_%s.report" % (mode, tag))
+    drv = bin_path(mode, "vec_driver")
+    status = "ok"
+    with open(trace, "w") as tf:
+        try:
+            p = subprocess.run([drv, "gen", str(seed), str(count), str(maxops), str(first)],
+                               stdout=tf, stderr=subprocess.PIPE, timeout=900)
+            if p.returncode != 0:
+                status = "exit%d" % p.returncode
+        except subprocess.TimeoutExpired:
+            status = "timeout"
+    with open(trace) as tf, open(rep, "w") as rf:
+        subprocess.run([os.path.join(OCAML_BUILD, "vec_check")], stdin=tf, stdout=rf, timeout=900)
+    lines = open(rep).read().split("\n")
+    return {"mode": mode, "tag": tag, "trace": trace, "status": status, "lines": lines,
+            "seed": seed, "first": first, "count": count, "maxops": maxops}
+
+
+def vec_run(tier, seed, extra_tag=""):
+    return engine_run("vec", VEC_TIERS, run_vec_shard, "C13", tier, seed, extra_tag)
+
+
 def arena_run(tier, seed, extra_tag=""):
-    """run (or fetch from the cache) the arena correspondence for this tree"""
+    return engine_run("arena", ARENA_TIERS, run_shard, "C09", tier, seed, extra_tag)
+
+
+def engine_run(name, tiers, shard_fn, crash_prop, tier, seed, extra_tag=""):
+    """run (or fetch from the cache) one engine's correspondence for this tree"""
     os.makedirs(CACHE, exist_ok=True)
     key = "%s_%s_%s_%d%s" % (repo_hash(), verif_hash(), tier, seed, extra_tag)
-    cpath = os.path.join(CACHE, "arena_%s.json" % key)
+    cpath = os.path.join(CACHE, "%s_%s.json" % (name, key))
     if os.path.exists(cpath) and not os.environ.get("BV_NOCACHE"):
         with open(cpath) as f:
             r = json.load(f)
         r["cached"] = True
         return r
-    shards, count, maxops = ARENA_TIERS[tier]
+    shards, count, maxops = tiers[tier]
     outdir = os.path.join(TRACES, key)
     os.makedirs(outdir, exist_ok=True)
     t0 = time.time()
@@ -291,7 +338,7 @@ def arena_run(tier, seed, extra_tag=""):
     with ThreadPoolExecutor(max_workers=NPROC) as ex:
         for mode in ("debug", "release"):
             for i in range(shards):
-                jobs.append(ex.submit(run_shard, mode, seed, count, maxops, i * count, outdir, "s%d" % i))
+                jobs.append(ex.submit(shard_fn, mode, seed, count, maxops, i * count, outdir, "s%d" % i))
         results = [j.result() for j in jobs]
     reports, summaries = [], []
     for r in results:
@@ -306,7 +353,7 @@ def arena_run(tier, seed, extra_tag=""):
                     pass
         if r["status"] != "ok":
             reports.append({"mode": r["mode"], "trace": r["trace"], "seed": r["seed"], "maxops": r["maxops"],
-                            "line": "SPEC hid=? op=0 prop=C09 pred=driver_%s detail=driver_status desc=[?] hdr=[?]" % r["status"]})
+                            "line": "SPEC hid=? op=0 prop=%s pred=driver_%s detail=driver_status desc=[?] hdr=[?]" % (crash_prop, r["status"])})
     out = {"key": key, "tier": tier, "seed": seed, "wall_s": time.time() - t0, "reports": reports,
            "summaries": summaries, "cached": False, "outdir": outdir}
     with open(cpath, "w") as f:
@@ -321,8 +368,9 @@ def parse_report(line):
     return d
 
 
-def reports_for(prop, run):
+def reports_for(prop, run, table=None):
     """(spec failures of prop, correspondence mismatches that concern prop)"""
+    table = table if table is not None else MISMATCH_PROPS
     spec, mism = [], []
     for r in run["reports"]:
         d = parse_report(r["line"])
@@ -331,7 +379,7 @@ def reports_for(prop, run):
             if d.get("prop") == prop:
                 spec.append(d)
         elif d["kind"] == "MISMATCH":
-            props = MISMATCH_PROPS.get((d.get("who"), d.get("field")), ["*"])
+            props = table.get((d.get("who"), d.get("field")), ["*"])
             if prop in props or "*" in props:
                 mism.append(d)
     return spec, mism
@@ -397,9 +445,12 @@ def write_replay(prop, kind, what, d, extra=None):
         "seed": d.get("seed"),
         "hid": d.get("hid"),
         "history": hist,
-        "replay_cmd": "%s gen %s 1 %s %s | %s" % (bin_path(d.get("mode", "debug"), "arena_driver"), d.get("seed"),
-                                                 d.get("maxops"), d.get("hid"), os.path.join(OCAML_BUILD, "arena_check"))
+        "replay_cmd": "%s gen %s 1 %s %s | %s" % (bin_path(d.get("mode", "debug"), d.get("driver", "arena_driver")), d.get("seed"),
+                                                 d.get("maxops"), d.get("hid"), os.path.join(OCAML_BUILD, d.get("checker", "arena_check")))
         if d.get("seed") is not None else None,
+        "driver": d.get("driver", "arena_driver"),
+        "checker": d.get("checker", "arena_check"),
+        "maxops": d.get("maxops"),
     }
     if extra:
         body.update(extra)
